@@ -421,6 +421,35 @@ def check_c17(ctx, R):
                       "collide under EDIF's case-insensitive rule" % (short(c, 60), unf[0]))
             else:
                 R.ok("I3", "folded comparison %s" % short(c, 50), cg.loc(c))
+        # membership form: <candidate> [not] in <collection of folded sibling values>
+        if isinstance(c, ast.Compare) and len(c.ops) == 1 and isinstance(c.ops[0], (ast.In, ast.NotIn)) and any(isinstance(x, ast.Name) and x.id in cand for x in ast.walk(c.left)):
+            coll = c.comparators[0]
+            if isinstance(coll, ast.Name):
+                d = next((a.value for a in ast.walk(cg.node) if isinstance(a, ast.Assign) and len(a.targets) == 1 and norm(a.targets[0]) == coll.id), None)
+                coll = d if d is not None else coll
+            elts = []
+            for x in ast.walk(coll):
+                if isinstance(x, (ast.SetComp, ast.ListComp, ast.GeneratorExp)):
+                    elts.append(x.elt)
+            if elts:
+                ncmp += len(elts)
+                for e_ in [c.left] + elts:
+                    if not folded(e_):
+                        R.bad("I3", "%s|unfolded|%s" % (cg.key, norm(e_)), cg.loc(c),
+                              "_conflicts_good tests `%s`: %s is not case-folded, so two siblings that differ only in letter case collide under EDIF's case-insensitive rule"
+                              % (short(c, 60), norm(e_)))
+                    else:
+                        R.ok("I3", "folded membership operand %s" % short(e_, 40), cg.loc(c))
+    # the test looks at both things a sibling can clash through: its name and the identifier it was already given
+    srcs = norm(cg.node)
+    for hname in sorted({x.attr for x in ast.walk(cg.node) if isinstance(x, ast.Attribute) and isinstance(x.value, ast.Name) and x.value.id == "self" and x.attr in en.methods}):
+        srcs += norm(en.methods[hname].node)
+    for what, present in (("sibling names", ".name" in srcs), ("identifiers already given to siblings", "'EDIF.identifier'" in srcs)):
+        if present:
+            R.ok("I3", "_conflicts_good looks at %s" % what, cg.loc())
+        else:
+            R.bad("I3", "%s|ignores %s" % (cg.key, what.split()[0]), cg.loc(),
+                  "_conflicts_good never looks at the %s: two siblings can be given the same identifier (the file then declares two objects under one name and is rejected on read)" % what)
     R.count("candidate comparisons in _conflicts_good (I3)", ncmp)
     R.floor("candidate comparisons in _conflicts_good (I3)", 2)
     loops = [lp for lp in walk_local(cg.node) if isinstance(lp, ast.For)]
